@@ -28,12 +28,12 @@ def _tie_theorems():
 TIE_THEOREMS = _tie_theorems()
 
 _T = "Cstl.Vec.Tie."
-# vector.c
-_VEC = ["vsize_tie", "vcapacity_tie", "vatOffset_tie", "vat_tie", "vat_public_tie", "setCapacity_tie", "reserve_tie",
-        "shrink_tie", "vswap_tie", "consLoop_tie", "destLoop_tie", "resize_tie", "clear_tie"]
+# C09: the theorems about src/vector.c (everything in Tie.lean before the string part);
+# C10: all of them (the string functions sit on the vector functions: a vector tie that no
+# longer checks takes the string ties that use it with it)
 TIE_BY_PROP = {
-    "C09": [_T + n for n in _VEC],
-    "C10": [t for t in TIE_THEOREMS if t[len(_T):] not in _VEC],
+    "C09": TIE_THEOREMS[:TIE_THEOREMS.index(_T + "strSize_tie")] if _T + "strSize_tie" in TIE_THEOREMS else list(TIE_THEOREMS),
+    "C10": list(TIE_THEOREMS),
 }
 # the functions the three repaired defects (DESIGN section 5, #5 #6 #7) sat in
 GUARD_TIES = {
@@ -58,6 +58,12 @@ def tie_run(chk, theorems=None):
         if h not in chk.forbidden:
             chk.forbidden.append(h)
     vlib.translator_tie(chk, "vec", TIE_MODULE, thms)
+    # a theorem whose own proof fails is a root; theorems that merely use it show `sorryAx`
+    roots = [t for t in thms if not chk.theorems.get(t, (False, ""))[0]
+             and "sorryAx" not in chk.theorems.get(t, (False, ""))[1]]
+    deps = [t for t in thms if not chk.theorems.get(t, (False, ""))[0] and t not in roots]
+    if roots or deps:
+        chk.extra["tie_broken"] = {"first_to_fail": roots, "fail_because_they_use_those": deps}
     rep = chk.extra.get("translator", {}).get("vec", {})
     if rep:
         chk.extra.setdefault("translator_summary", {})["vec"] = {
@@ -79,6 +85,8 @@ if __name__ == "__main__":
     for t in TIE_THEOREMS:
         okk, d = chk.theorems.get(t, (False, "not checked"))
         print("%-6s %s  %s" % ("ok" if okk else "BROKEN", t, "" if okk else d[:200]))
+    if "tie_broken" in chk.extra:
+        print("first to fail:", ", ".join(chk.extra["tie_broken"]["first_to_fail"]))
     for n in chk.notes:
         print("note:", n)
     for b in chk.build_problems + [("forbidden", h) for h in chk.forbidden]:
